@@ -15,6 +15,7 @@ import (
 	"encoding/json"
 	"errors"
 	"fmt"
+	"net/url"
 	"testing"
 
 	"github.com/google/jsonschema-go/jsonschema"
@@ -31,7 +32,12 @@ type c07Case struct {
 	// Long: (array mode) also evaluate a few arrays of 63-130 items, whose interesting positions are
 	// the last one and the word boundaries 63/64/65
 	Long bool `json:"long,omitempty"`
+	// Remote: the schema is not the root document but a document supplied by the Loader; the root
+	// is just a reference to it ({"$ref": uri} or {"allOf": [{"$ref": uri}]}), which changes no verdict.
+	Remote int `json:"remote,omitempty"` // 0 no, 1 $ref, 2 allOf/$ref
 }
+
+const c07RemoteURI = "http://c07.test/dir/s.json"
 
 // c07LongArrays: mostly "x", with 1 at the given positions.
 func c07LongArrays() []*jv.V {
@@ -323,7 +329,21 @@ func checkC07(c *c07Case, rec *ev.Recorder) *failure {
 		if err := json.Unmarshal([]byte(doc), &s); err != nil {
 			return failf("Unmarshal rejects a well-formed schema: %v\n%s", err, doc)
 		}
-		rs, err := s.Resolve(nil)
+		var opts *jsonschema.ResolveOptions
+		if c.Remote > 0 {
+			remote := s
+			s = jsonschema.Schema{Ref: c07RemoteURI}
+			if c.Remote == 2 {
+				s = jsonschema.Schema{AllOf: []*jsonschema.Schema{{Ref: c07RemoteURI}}}
+			}
+			opts = &jsonschema.ResolveOptions{BaseURI: "http://c07.test/root.json", Loader: func(u *url.URL) (*jsonschema.Schema, error) {
+				if u.String() == c07RemoteURI {
+					return &remote, nil
+				}
+				return nil, fmt.Errorf("no such document %s", u)
+			}}
+		}
+		rs, err := s.Resolve(opts)
 		if err != nil {
 			return failf("Resolve rejects a well-formed schema: %v\n%s", err, doc)
 		}
@@ -367,6 +387,10 @@ func propC07(rec *ev.Recorder) func(t *rapid.T) {
 		c := genC07(t)
 		ev.SetCurrent("C07", c)
 		c.Long = c.Mode == "array" && rapid.IntRange(0, 5).Draw(t, "longarrays") == 0
+		if rapid.IntRange(0, 5).Draw(t, "remote") == 0 {
+			c.Remote = 1 + rapid.IntRange(0, 1).Draw(t, "remotekind")
+			rec.Class("schema:supplied-by-the-Loader")
+		}
 		rec.ClassIf(c.Long, "instances:long-arrays")
 		rec.Class("mode:" + c.Mode)
 		fl := checkC07(c, rec)
